@@ -362,6 +362,33 @@ def C14(ctx):
         ctx.cov.setdefault("branch_kinds_seen", {})
         for k in kinds:
             ctx.cov["branch_kinds_seen"][k] = ctx.cov["branch_kinds_seen"].get(k, 0) + 1
+    # an exploration that is stopped and resumed from its checkpoint is still ONE exploration: no execution twice
+    import loomrun
+    ck = os.path.join(ctx.work, "ckpt")
+    os.makedirs(ck, exist_ok=True)
+    cand = [(i, p, r) for i, (p, r) in enumerate(zip(progs, res)) if r["end"] == "ok" and 6 <= r["iters"] <= 600][: (4 if ctx.tier == "quick" else 20)]
+    ja, jm = [], []
+    for (i, p, r) in cand:
+        for k in sorted({2, max(3, r["iters"] // 2), r["iters"] - 1}):
+            f = os.path.join(ck, f"p{i}_k{k}.json")
+            if os.path.exists(f):
+                os.remove(f)
+            ja.append({"prog": p, "cfg": {"want_paths": True, "checkpoint_file": f, "checkpoint_interval": 1, "max_permutations": k}})
+            jm.append((i, k, f))
+    if ja:
+        RA = loomrun.run_items(os.path.join(ctx.work, "resA"), ja, jobs=ctx.jobs, tag="resA")
+        RB = loomrun.run_items(os.path.join(ctx.work, "resB"), [{"prog": j["prog"], "cfg": {"want_paths": True, "checkpoint_file": m[2],
+                                                                 "checkpoint_interval": 100000}} for j, m in zip(ja, jm)], jobs=ctx.jobs, tag="resB")
+        for (i, k, f), ra, rb in zip(jm, RA, RB):
+            da = [pathcheck.decisions(pathcheck.canon_path(path)) for (ph, it, path) in ra["hook_events"] if ph == "end"]
+            db = [pathcheck.decisions(pathcheck.canon_path(path)) for (ph, it, path) in rb["hook_events"] if ph == "end"]
+            if ra["end"] != "ok" or rb["end"] != "ok":
+                ctx.violation("resume-failed", progs[i], {"k": k, "endA": ra["end"], "endB": rb["end"]}, {"msgB": rb["msg"]})
+            elif len(set(da + db)) != len(da) + len(db) or len(da) + len(db) != res[i]["iters"]:
+                ctx.violation("repeated-execution", progs[i], {"stopped_after": len(da), "resumed": len(db), "distinct": len(set(da + db)),
+                                                               "uninterrupted": res[i]["iters"]}, {"note": "stop + resume"})
+            runs.append(({"prog": i, "resumed_after": k}, rb["hook_events"]))
+        ctx.cov["stop_resume_pairs"] = len(ja)
     rej = pathcheck.validate(ctx, runs)
     for meta, info in rej:
         ctx.violation("path-rejected", progs[meta["prog"]], info, {"note": "first hook event ExploreTrace could not match"})
@@ -500,6 +527,9 @@ def C15(ctx):
     pool += [p for p in families.locks(ctx.tier, ctx.seed)]
     pool += [p for p in families.waits(ctx.tier, ctx.seed) if families.ops_of(p) & {"park", "unpark"}]
     pool = [p for p in pool if not (families.ops_of(p) & {"yield", "await"})]
+    # open finding F13: the failing try_* outcome is only reached through the conservative backtrack points of bounded
+    # runs, never by the unbounded run; generated programs with try_* decide nothing here (a directed witness is kept below)
+    pool = [p for p in pool if not (families.ops_of(p) & {"trylock", "tryread", "trywrite"})]
     pool = [p for p in pool if not families.q_mo(p) and not families.q_f16(p)]     # open findings F3/F4/F16: their shapes decide nothing here
     rng.shuffle(pool)
     pool = pool[: (45 if ctx.tier == "quick" else 300)]
@@ -573,6 +603,10 @@ def C15(ctx):
                    [dsl.I("yield"), dsl.ld("x", "sc")]),
         families.P("store-then-yield", [dsl.spawn(2), dsl.spawn(3), dsl.join(2), dsl.join(3)], [dsl.ld("x", "sc"), dsl.ld("y", "sc")],
                    [dsl.st("x", 32, "sc"), dsl.I("yield")]),
+        # F13 seen through the bound: try_lock fails only under a bound
+        families.P("F13-trylock-fails-only-bounded", [dsl.spawn(2), dsl.spawn(3), dsl.spawn(4), dsl.join(2), dsl.join(3), dsl.join(4), dsl.ld("x", "sc"), dsl.ld("y", "sc")],
+                   [dsl.ld("x", "sc")], [dsl.I("trylock", "n"), dsl.br(1, 1, 1), dsl.I("unlock", "n")],
+                   [dsl.ld("y", "sc"), dsl.I("lock", "n"), dsl.wr("c_n"), dsl.st("x", 1, "sc"), dsl.I("unlock", "n")]),
     ]]
     yb = [0, 1, 2, 3, 4, None]
     YR = loomrun.run_items(os.path.join(ctx.work, "yield"), [{"prog": q, "cfg": ({"preemption_bound": b} if b is not None else {})}
